@@ -1,8 +1,180 @@
-/- Model driver for C10 (stub: no ops yet). -/
+/-
+  Model driver for C10 (skymodel.py, Wea / design-day irradiance formulas).
+  Line protocol: see DrvCore.  Floats travel as 16-hex-digit IEEE bit patterns; an optional float is
+  a bit pattern or the token `none`.  Imports only Mathlib-free files.
+-/
 import Ladybug.DrvCore
+import Ladybug.Model.Sky
+
+open Drv Sky
 
 namespace DrvC10
-def handle (_toks : List String) : String := "bad-op"
+
+def showErr : Err → String
+  | .value => "err:value"
+  | .zero => "err:zero"
+  | .index => "err:index"
+  | .type => "err:type"
+
+def fl (s : String) : Option Float := floatBits? s
+
+def fls (l : List String) : Option (List Float) := l.mapM fl
+
+/-- optional float: `none` or bits -/
+def ofl (s : String) : Option (Option Float) :=
+  if s = "none" then some none else (fun x => some x) <$> fl s
+
+def sf (x : Float) : String := showFloatBits x
+
+def sof (x : Option Float) : String :=
+  match x with
+  | some v => sf v
+  | none => "none"
+
+def ok2 (r : Except Err (Float × Float)) : String :=
+  match r with
+  | .ok p => s!"ok {sf p.1} {sf p.2}"
+  | .error e => showErr e
+
+def ok3 (r : Except Err (Float × Float × Float)) : String :=
+  match r with
+  | .ok p => s!"ok {sf p.1} {sf p.2.1} {sf p.2.2}"
+  | .error e => showErr e
+
+def ok4 (r : Except Err (Float × Float × Float × Float)) : String :=
+  match r with
+  | .ok p => s!"ok {sf p.1} {sf p.2.1} {sf p.2.2.1} {sf p.2.2.2}"
+  | .error e => showErr e
+
+def ok1 (r : Except Err Float) : String :=
+  match r with
+  | .ok p => "ok " ++ sf p
+  | .error e => showErr e
+
+/-- Split a list into consecutive chunks of length `k`. -/
+def chunks (k : Nat) (l : List Float) : List (List Float) :=
+  if k = 0 then [] else
+  let rec go (fuel : Nat) (l : List Float) (acc : List (List Float)) : List (List Float) :=
+    match fuel with
+    | 0 => acc.reverse
+    | fuel + 1 => if l.isEmpty then acc.reverse else go fuel (l.drop k) (l.take k :: acc)
+  go (l.length + 1) l []
+
+def handle (toks : List String) : String :=
+  match toks with
+  | ["relam", model, alt] =>
+    match fl alt with
+    | some a =>
+      match AmModel.ofString? model.toLower with
+      | some m =>
+        match relativeAirmass a m with
+        | .ok r => "ok " ++ sof r
+        | .error e => showErr e
+      | none => if a < 0.0 then "ok none" else "err:value"
+    | none => "bad-op"
+  | ["absam", am, p] =>
+    match ofl am, fl p with
+    | some am, some p => "ok " ++ sof (absoluteAirmass am p)
+    | _, _ => "bad-op"
+  | ["extra", doy, sc] =>
+    match fl doy, fl sc with
+    | some d, some s => "ok " ++ sf (extraRadiation d s)
+    | _, _ => "bad-op"
+  | ["kt", ghi, alt, ex, ms, mk] =>
+    match fls [ghi, alt, ex, ms, mk] with
+    | some [ghi, alt, ex, ms, mk] => "ok " ++ sf (clearnessIndex ghi alt ex ms mk)
+    | _ => "bad-op"
+  | ["ktp", kt, am, mk] =>
+    match fl kt, ofl am, fl mk with
+    | some kt, some am, some mk => ok1 (ktPrime kt am mk)
+    | _, _, _ => "bad-op"
+  | ["disckn", kt, am, mx] =>
+    match fls [kt, am, mx] with
+    | some [kt, am, mx] => let r := discKn kt am mx; s!"ok {sf r.1} {sf r.2}"
+    | _ => "bad-op"
+  | ["disc", ghi, alt, doy, p, ms, ma, mx] =>
+    match fls [ghi, alt, doy, ms, ma, mx], ofl p with
+    | some [ghi, alt, doy, ms, ma, mx], some p =>
+      match disc ghi alt doy p ms ma mx with
+      | .ok r => s!"ok {sf r.1} {sf r.2.1} {sof r.2.2}"
+      | .error e => showErr e
+    | _, _ => "bad-op"
+  | "dirint" :: ud :: hd :: ms :: ma :: n :: rest =>
+    match bool? ud, bool? hd, fl ms, fl ma, n.toNat?, fls rest with
+    | some ud, some hd, some ms, some ma, some n, some xs =>
+      if xs.length ≠ (if hd then 5 else 4) * n then "bad-op" else
+      let ghi := xs.take n
+      let alt := (xs.drop n).take n
+      let doy := (xs.drop (2 * n)).take n
+      let p := (xs.drop (3 * n)).take n
+      let dew : Option (List Float) := if hd then some ((xs.drop (4 * n)).take n) else none
+      let rows : List (DRow Float) :=
+        (ghi.zip (alt.zip (doy.zip p))).map fun x => (x.1, x.2.1, x.2.2.1, x.2.2.2)
+      match dirint rows ud dew ms ma with
+      | .ok r => "ok " ++ joinSp (r.map sf)
+      | .error e => showErr e
+    | _, _, _, _, _, _ => "bad-op"
+  | ["cs", month, alt, cl] =>
+    match month.toInt?, fl alt, fl cl with
+    | some m, some a, some c => ok2 (clearSky1 a m c)
+    | _, _, _ => "bad-op"
+  | ["rcs", alt, tb, td, u] =>
+    match fls [alt, tb, td], bool? u with
+    | some [alt, tb, td], some u => ok2 (revisedClearSky1 alt tb td u)
+    | _, _ => "bad-op"
+  | ["zh", alt, cc, rh, t, t3, ws, irr] =>
+    match fls [alt, cc, rh, t, t3, ws, irr] with
+    | some [alt, cc, rh, t, t3, ws, irr] => "ok " ++ sf (zhangHuangSolar alt cc rh t t3 ws irr)
+    | _ => "bad-op"
+  | "zhsplit" :: ud :: n :: rest =>
+    match bool? ud, n.toNat?, fls rest with
+    | some ud, some n, some xs =>
+      if xs.length ≠ 9 * n then "bad-op" else
+      let rows := chunks 9 xs
+      let zr : List (ZRow Float) := rows.filterMap fun r =>
+        match r with
+        | [alt, doy, cc, rh, t, t3, ws, p, _] => some ⟨alt, doy, cc, rh, t, t3, ws, p⟩
+        | _ => none
+      let dews : List Float := rows.filterMap fun r => r[8]?
+      match zhSplit zr dews ud with
+      | .ok r => "ok " ++ joinSp (r.map fun x => sf x.1 ++ " " ++ sf x.2)
+      | .error e => showErr e
+    | _, _, _ => "bad-op"
+  | ["illum", alt, ghi, dni, dhi, dew, am] =>
+    match fls [alt, ghi, dni, dhi, dew], ofl am with
+    | some [alt, ghi, dni, dhi, dew], some am => ok4 (illuminance alt ghi dni dhi dew am)
+    | _, _ => "bad-op"
+  | ["hir", sc, db, dp] =>
+    match fls [sc, db, dp] with
+    | some [sc, db, dp] => ok1 (horizontalInfrared sc db dp)
+    | _ => "bad-op"
+  | ["skyt", hir, em] =>
+    match fls [hir, em] with
+    | some [hir, em] => ok1 (skyTemperature hir em)
+    | _ => "bad-op"
+  | ["ghi", sa, dnr, dhr] =>
+    match fls [sa, dnr, dhr] with
+    | some [sa, dnr, dhr] => "ok " ++ sf (globalHorizontal sa dnr dhr)
+    | _ => "bad-op"
+  | ["dirh", sa, dnr] =>
+    match fls [sa, dnr] with
+    | some [sa, dnr] => "ok " ++ sf (directHorizontal sa dnr)
+    | _ => "bad-op"
+  | ["dirirr", sa, sz, dnr, dhr, alt, az, refl, iso] =>
+    match fls [sa, sz, dnr, dhr, alt, az, refl], bool? iso with
+    | some [sa, sz, dnr, dhr, alt, az, refl], some iso =>
+      ok4 (directional sa sz dnr dhr alt az refl iso)
+    | _, _ => "bad-op"
+  | ["ddcs", month, alt, cl] =>
+    match month.toInt?, fl alt, fl cl with
+    | some m, some a, some c => ok3 (designDayClearSky1 a m c)
+    | _, _, _ => "bad-op"
+  | ["ddtau", alt, tb, td, u] =>
+    match fls [alt, tb, td], bool? u with
+    | some [alt, tb, td], some u => ok3 (designDayTau1 alt tb td u)
+    | _, _ => "bad-op"
+  | _ => "bad-op"
+
 end DrvC10
 
 def main : IO Unit := Drv.run DrvC10.handle
